@@ -9,11 +9,16 @@
 EXTENDS ClientMux, Json, TLC
 VARIABLE hist
 C3 == {1, 2, 3}
+F3 == {3}
 GInit == Init /\ hist = <<>>
-L(a, x) == hist' = Append(hist, <<a, x, Cardinality(pending')>>)       \* label, argument, size of the pending map afterwards
+L(a, x) == hist' = Append(hist, <<a, x, Cardinality(pending'), 0>>)    \* label, argument, size of the pending map afterwards, (id)
+LF(a, x, id) == hist' = Append(hist, <<a, x, Cardinality(pending'), id>>)  \* forwarded requests also carry the id their caller chose
 JunkId(f) == IF f.id \in answered THEN f.id ELSE 0        \* a duplicate of an answered id, else "an id never issued"
 GNext == \/ \E c \in Callers : \/ (Alloc(c) /\ L("Alloc", c))
-                               \/ (Register(c) /\ L("Register", c))
+                               \* sampled forwards always reuse an id one of the client's own calls has (had): the interesting case
+                               \/ (AllocF(c) /\ (\E d \in Callers \ {c} : cid[d] # 0 /\ cid'[c] = cid[d]) /\ LF("AllocF", c, cid'[c]))
+                               \/ (Register(c) /\ c \notin Forwarders /\ L("Register", c))
+                               \/ (Register(c) /\ c \in Forwarders /\ LF(IF pc'[c] = "done" THEN "RegisterFRefused" ELSE "RegisterF", c, cid[c]))
                                \* replay only the writes whose outcome the specification fixes: none while a fault is in flight
                                \/ (Write(c) /\ (Faulted => writerShut) /\ L(IF writerShut THEN "WriteFail" ELSE "Write", c))
                                \/ (Take(c) /\ L("Take", c))
